@@ -26,6 +26,14 @@ func init() {
 	auxSched("C06", []string{"A-", "F-"}, func(sig string) bool {
 		return strings.HasPrefix(sig, "select") || sig == "panic"
 	})
+	// C11: expiry sweep against restoration; C17: compaction against the
+	// application's own writes
+	auxSched("C11", []string{"G-", "H-", "I-"}, func(sig string) bool {
+		return strings.HasPrefix(sig, "restored-node") || strings.HasPrefix(sig, "fresh-node") || strings.HasPrefix(sig, "node-lost") || sig == "panic"
+	})
+	auxSched("C17", []string{"J-"}, func(sig string) bool {
+		return strings.HasPrefix(sig, "local-") || sig == "panic"
+	})
 	auxSched("C14", []string{"B-", "G-", "H-"}, func(sig string) bool {
 		return strings.HasPrefix(sig, "routing-table") || strings.HasPrefix(sig, "expired-node") || strings.HasPrefix(sig, "remote-node") || sig == "panic"
 	})
